@@ -1,4 +1,4 @@
-HOOK_COMMITS = ["3210615", "0f00bd0"]
+HOOK_COMMITS = ["3210615", "0f00bd0", "4ea7e21"]
 FUZZED = []
 NA_REASONS = {}
 
